@@ -78,10 +78,10 @@ def explore_combo(ck, ci, progs, tier, rng, stats, hists, meta):
     lockprogs, nlocks = sc.record_progs("base", progs)
     scheds, dls = sc.enumerate_schedules(ck, lockprogs, nlocks, 2, "c%d" % ci)
     stats["schedules_enumerated"] += len(scheds)
-    take = 90 if tier == "quick" else 400
+    take = 90 if tier == "quick" else 300
     if len(scheds) > take:
         scheds = rng.sample(scheds, take)
-    scheds += sc.random_schedules(rng, lockprogs, 10 if tier == "quick" else 120, 5)
+    scheds += sc.random_schedules(rng, lockprogs, 10 if tier == "quick" else 80, 5)
     reports = sc.run_many("base", progs, scheds)
     for s, rep in zip(scheds, reports):
         stats["replays"] += 1
